@@ -91,3 +91,10 @@ package planner
 //@   assert before call#1 invertJoinDirectionWithIndex: !res(IsComplex, 1, 0)
 //@   assert before call#1 IsComplex: arg0 == parentPlan.selectNode.filter
 //@   tags C09 C07
+//@
+//@ // ===== C08 / C07: the order node is dropped only when the index really delivers the requested order: not for
+//@ // an _in filter (its iterator follows the listed values) and not when deleted documents are merged in
+//@ func isOrderedByIndex -> (r)
+//@   ensures r ==> called(hasInCondition, 1) && !res(hasInCondition, 1, 0) && called(CanBeOrderedByIndex, 1) && res(CanBeOrderedByIndex, 1, 0)
+//@   assert before call#1 hasInCondition: arg0 == scan.filter && !scan.showDeleted
+//@   tags C08 C07
